@@ -550,3 +550,9 @@ func c05r5(c *Ctx) {
 		}
 	}
 }
+
+func init() {
+	// C05.R6: the UID / resourceVersion a delete is pinned to, and the ownership it was decided on, must
+	// describe the version that was inspected — never a value read before the object was re-read.
+	properties["C05"].Rules = append(properties["C05"].Rules, Rule{ID: "C05.R6", Min: 1, Statement: staleStatement, Run: staleRule(pkgControllers)})
+}
